@@ -3,6 +3,7 @@ import SJ.Proofs.SourceLevelA
 import SJ.Proofs.SourceLevelD
 import SJ.Proofs.SourceLevelE
 import SJ.Proofs.SourceLevelF
+import SJ.Proofs.SourceLevelG
 set_option linter.unusedVariables false
 /-
 C12 — source level. The theorems of Properties/C12.lean composed with the source ties of DESIGN §6.3: each statement
@@ -390,5 +391,22 @@ theorem C12_source_firstType (pj : PJ) (p e : Nat) (es : LVals) (hok : Ok pj (.a
         .ret s [.u8 (match es with | .nil => typeNone | .cons v _ => tagToTypeSpec (tagOfL v))] ∧
       s.tape = pj.tape :=
   SJ.SourceLevelF.C12_source_firstType pj p e es hok fuel hf
+
+open SJ SJ.Generated SJ.GoSem SJ.GoIter SJ.GoObject SJ.GoInterface SJ.Layout SJ.WalkLayout SJ.Lookup in
+/-- **`Object.Map(nil)` of /repo on an object of a document.** On a tape denoting the object `ms` (`Ok`, tight),
+    running the regenerated `Object.Map` with a nil destination returns the map with every member inserted in order
+    (the last duplicate wins, values as `Interface()` returns them) and leaves the tape unchanged — no function of the
+    hand model in the conclusion. Premise `hdef` is executable: the fragment of the model that the tie covers does
+    not run out of its own fuel on this object and meets no root entry inside it (it is not derived from `Ok` here). -/
+theorem C12_source_map (pj : PJ) (hb : BufOK pj) (hsz : pj.tape.size < 2^63) (p e : Nat) (ms : LMems)
+    (hok : Ok pj (.obj p e ms)) (ht : TightMs ms)
+    (hdef : mapV pj { lim := e, off := p + 1 } [] (fuelOf pj) ≠ .diverge)
+    (F : Nat) (hF : goFuel pj (fuelOf pj) ≤ F) :
+    ∃ s, runFun goFuns goObject_Map F
+        ⟨[("o.off", .int ((p + 1 : Nat) : Int)), ("o.lim", .int (e : Int)), ("dst", .iface (.obj [])), ("dst==nil", .bool true)] ++
+          bufEnv pj, pj.tape⟩ =
+      .ret s [.iface (.obj ((toIMems ms).foldl (fun m kv => mapInsert m kv.1 kv.2) [])), .bool false] ∧
+      s.tape = pj.tape :=
+  SJ.SourceLevelG.source_map_of_document pj hb hsz p e ms hok ht hdef F hF
 
 end SJ.Properties.C12
